@@ -24,9 +24,12 @@ const (
 
 var propRules = map[string]*PropSpec{
 	"C01": {
-		Rules:       []string{"A1.kernel", "A6.kernel", "F1", "F8.bitmap", "F8.run", "F10", "F3.32", "A1.api32", "A2.32", "A3.32", "F11", "F8.scratch", "G1", "F13.32", "IDX1", "RES1", "A2.stale", "LEN1", "U1"},
+		Rules:       []string{"A1.kernel", "A6.kernel", "F1", "F8.bitmap", "F8.run", "F10", "F3.32", "A1.api32", "A2.32", "A3.32", "F11", "F8.scratch", "G1", "F13.32", "IDX1", "RES1", "A2.stale", "LEN1", "U1", "RCV1", "GAL1", "CACHE1"},
 		Explanation: explBase + " C01: kernels never write operands, results are fresh, every kind pairing is dispatched, results are re-typed at the 4096 threshold and run results re-minimised, empty results are elided, x.Op(x) is guarded.",
 		Decided: []string{
+			"where the container returned by an in-place kernel is kept, the old receiver is not consulted afterwards (cardinality/emptiness of a container that is no longer in the bitmap)",
+			"the position answered by a galloping search is compared with a bound before it is used as an index (directly, or as the loop's position variable)",
+			"a merge loop that carries the element under its cursor in a local reloads it whenever the cursor moves (including galloping jumps)",
 			"kernels and predicates use no package-level scratch memory (concurrent queries on unrelated bitmaps cannot interfere)",
 			"operands of every container kernel are never written (3 kinds x all methods) and non-in-place kernels leave the receiver unchanged",
 			"non-in-place kernels return fresh containers; in-place kernels return receiver or fresh, never the operand",
@@ -44,9 +47,10 @@ var propRules = map[string]*PropSpec{
 		Technique:  techMix,
 	},
 	"C02": {
-		Rules:       []string{"A2.32", "A3.32", "F3.32", "F8.bitmap", "F8.run", "F5", "F8.scratch", "A4", "F13.32", "U6", "RES1", "A2.stale", "A4.clear", "F8.point", "R3"},
+		Rules:       []string{"A2.32", "A3.32", "F3.32", "F8.bitmap", "F8.run", "F5", "F8.scratch", "A4", "F13.32", "U6", "RES1", "A2.stale", "A4.clear", "F8.point", "R3", "RCV1", "CACHE1"},
 		Explanation: explBase + " C02: every mutator obtains its container through the copy-before-write gate, stores only owned containers, drops emptied chunks, keeps flags aligned with moved containers, re-types/minimises results and inserts at a position searched in the same table.",
 		Decided: []string{
+			"where the container returned by an in-place kernel is kept, the old receiver is not consulted afterwards (cardinality/emptiness of a container that is no longer in the bitmap)",
 			"the container returned by an in-place kernel applied to a slot's container is stored back into the table (CheckedAdd/CheckedRemove/Add/Remove/AddRange ...)",
 			"every payload write of Add/CheckedAdd/Remove/CheckedRemove/AddRange/RemoveRange/Flip/AddMany goes through an owned container (gate or fresh)",
 			"every slot store keeps container and copy-on-write flag together (including removeAtIndex/insert shifts)",
@@ -59,9 +63,10 @@ var propRules = map[string]*PropSpec{
 		Technique:  techOwn,
 	},
 	"C03": {
-		Rules:       []string{"A1.api32", "A1.kernel", "F1", "F11", "G1", "F3.32", "F3.64", "A1.api64", "U6", "EQ1", "IDX1", "F2", "U5"},
+		Rules:       []string{"A1.api32", "A1.kernel", "F1", "F11", "G1", "F3.32", "F3.64", "A1.api64", "U6", "EQ1", "IDX1", "F2", "U5", "CUR1"},
 		Explanation: explBase + " C03: the clause 'queries never modify the bitmap' is decided for every exported read-only function; kind dispatch of the query paths is exhaustive.",
 		Decided: []string{
+			"an iterator glues the key of the current chunk/bucket to what the inner iterator yields only when no reload of the cursor lies between the two reads",
 			"queries use no package-level scratch memory",
 			"no mutator leaves an empty chunk/bucket behind (IsEmpty, Minimum, Maximum rely on it)",
 			"no exported query (cardinality, rank/select, extrema, Contains, Equals, ToArray, Checksum, Stats, iterators' constructors ...) changes the contents of its receiver or argument", "read-only container kernels never write receiver or operand", "type switches on the query paths handle all kinds", "no scalar query (Equals, Contains, Rank, cardinalities ...) reads the copy-on-write flags",
@@ -71,9 +76,13 @@ var propRules = map[string]*PropSpec{
 		Technique:  techOwn,
 	},
 	"C04": {
-		Rules:       []string{"F7", "F1", "A1.api32", "F12", "U4", "R2", "LP1", "U5"},
+		Rules:       []string{"F7", "F1", "A1.api32", "F12", "U4", "R2", "LP1", "U5", "CUR1", "CUR2", "CUR3", "CUR4"},
 		Explanation: explBase + " C04: the early-termination clause and the purity of iteration are decided; kind dispatch in iterator init / Iterate / Ranges is exhaustive.",
 		Decided: []string{
+			"an iterator glues the key of the current chunk/bucket to what the inner iterator yields only when no reload of the cursor lies between the two reads",
+			"every move of the inner iterator of the eager iterators is followed, before returning, by an exhaustion test that may reload the cursor",
+			"AdvanceIfNeeded hands the low half of its argument to the chunk-level iterator (or stores it as gap position) only under an equality test of the cursor key against the argument's high half",
+			"the key field of a cursor whose reload can leave the inner iterator nil is read only behind a nil test of, or a call on, the inner iterator",
 			"range-over-func sequences capture only parameters: each traversal creates its own iterator state",
 			"every callback invocation's stop answer is examined and, once false, the callback is never invoked again (Iterate, Values, Backward, Unset, Ranges, per-kind iterate)", "iterator init / Iterate / Ranges handle all three kinds", "iteration never changes the bitmap's contents",
 			"the word scan behind UnsetIterator/Unset and Ranges inverts the word before shifting it, or bounds the count taken on the shifted word",
@@ -164,9 +173,10 @@ var propRules = map[string]*PropSpec{
 		Technique:  techErr + "; taint of decoded sizes",
 	},
 	"C11": {
-		Rules:       []string{"F9", "F2", "A1.api32", "A1.slices", "A2.32", "A3.32", "A6.kernel", "U1", "F8.scratch", "A2.64", "A3.64", "F2.repair", "U3", "PT2", "P6", "P2", "LP2", "LEN1", "IDX1", "F3.32", "RES1"},
+		Rules:       []string{"F9", "F2", "A1.api32", "A1.slices", "A2.32", "A3.32", "A6.kernel", "U1", "F8.scratch", "A2.64", "A3.64", "F2.repair", "U3", "PT2", "P6", "P2", "LP2", "LEN1", "IDX1", "F3.32", "RES1", "GAL1"},
 		Explanation: explBase + " C11: singleton behaviour of the aggregate siblings, lazy->repair discipline, inputs and the caller's slice unchanged, scratch containers never end up in the result.",
 		Decided: []string{
+			"the position answered by a galloping search is compared with a bound before it is used as an index (directly, or as the loop's position variable)",
 			"roaring64 aggregates store only owned or properly shared buckets",
 			"every aggregate of one bitmap returns a fresh bitmap", "every lazy union result is repaired before it is returned / sent; lazy kernels mark the cardinality invalid", "aggregates never change their inputs' contents nor the caller's slice", "kernel results never alias the argument, so AndAny's reused scratch containers cannot be stored in x", "no 16-bit arithmetic in the key-range partition of ParOr", "AndAny's per-key filter list is reset, untouched or known empty on every way back to the loop header"},
 		NotDecided: []string{"key-range partition arithmetic of ParOr", "heap grouping", "that the fold is the right fold", "worker-count independence of the result"},
@@ -207,9 +217,10 @@ var propRules = map[string]*PropSpec{
 		Technique:  techMix,
 	},
 	"C15": {
-		Rules:       []string{"U1", "A1.api32", "F3.32", "F8.bitmap", "F8.run", "F2", "B8", "U4", "U5", "LP1"},
+		Rules:       []string{"U1", "A1.api32", "F3.32", "F8.bitmap", "F8.run", "F2", "B8", "U4", "U5", "LP1", "GAL1"},
 		Explanation: explBase + " C15: kernels can express the out-of-chunk sentinels (no 16-bit wrap in the neighbour kernels and drivers) and the queries are pure. Everything else about these functions is value-level.",
 		Decided: []string{
+			"the position answered by a galloping search is compared with a bound before it is used as an index (directly, or as the loop's position variable)",
 			"no (value, error) result is used only on the error side of its test (the inverted check that made the walk past the last chunk answer -1)",
 			"no mutator leaves an empty chunk behind (the drivers ask each chunk for its minimum/maximum and ignore the error)",
 			"no 16-bit add/sub in the neighbour queries (3 kinds x 4 kernels + drivers) outside the triaged, reasoned allow-list", "neighbour queries never change the bitmap",
@@ -231,11 +242,15 @@ var propRules = map[string]*PropSpec{
 		Technique:  techMix,
 	},
 	"C17": {
-		Rules:       []string{"A2.64", "A3.64", "F3.64", "F5", "F9", "A1.api64", "A5", "F12", "P6", "P2", "U1", "F10", "EQ1", "R2", "IDX1", "A2.stale", "LEN1", "F5.neg", "R3", "U5"},
+		Rules:       []string{"A2.64", "A3.64", "F3.64", "F5", "F9", "A1.api64", "A5", "F12", "P6", "P2", "U1", "F10", "EQ1", "R2", "IDX1", "A2.stale", "LEN1", "F5.neg", "R3", "U5", "CUR1", "CUR2", "CUR3", "CUR4", "GAL1"},
 		Explanation: explBase + " C17: the 64-bit bitmap's bucket table obeys the same ownership discipline (bucket = container), drops emptied buckets, inserts at the right index and its aggregates return fresh bitmaps.",
-		Decided:     []string{"every bucket write goes through an owned bucket (gate / fresh)", "every bucket store is owned / moved with its flag / cloned", "every may-empty bucket operation is followed by an emptiness test", "insertion index searched in the destination table (static Flip)", "FastOr/FastAnd/ParOr of one bitmap return a fresh bitmap", "read-only API never changes its arguments", "in-place Xor tests rb == x2 before writing", "Equals compares receiver with argument on both key and bucket level", "Initialize rewinds every cursor field of the reusable 64-bit iterators"},
-		NotDecided:  []string{"per-bucket range splitting", "Rank/Select accumulation", "iterator arithmetic", "absence of panics in general"},
-		Technique:   techOwn,
+		Decided: []string{
+			"an iterator glues the key of the current chunk/bucket to what the inner iterator yields only when no reload of the cursor lies between the two reads",
+			"every move of the inner iterator of the eager iterators is followed, before returning, by an exhaustion test that may reload the cursor",
+			"AdvanceIfNeeded hands the low half of its argument to the chunk-level iterator (or stores it as gap position) only under an equality test of the cursor key against the argument's high half",
+			"the position answered by a galloping search is compared with a bound before it is used as an index (directly, or as the loop's position variable)", "every bucket write goes through an owned bucket (gate / fresh)", "every bucket store is owned / moved with its flag / cloned", "every may-empty bucket operation is followed by an emptiness test", "insertion index searched in the destination table (static Flip)", "FastOr/FastAnd/ParOr of one bitmap return a fresh bitmap", "read-only API never changes its arguments", "in-place Xor tests rb == x2 before writing", "Equals compares receiver with argument on both key and bucket level", "Initialize rewinds every cursor field of the reusable 64-bit iterators"},
+		NotDecided: []string{"per-bucket range splitting", "Rank/Select accumulation", "iterator arithmetic", "absence of panics in general"},
+		Technique:  techOwn,
 	},
 	"C18": {
 		Rules:       []string{"B1", "B2", "B5", "T1", "L1", "V1", "F3.64", "A8", "G1", "R1", "U3", "PT2", "B7", "B8", "F5.neg", "L2", "A2.64", "A3.64"},
